@@ -197,7 +197,8 @@ class Run:
         return out
 
 
-MODEL_FREE_ADAPTERS = {"cooler._reduce:CoolerCoarsener._aggregate", "cooler.api:annotate"}
+MODEL_FREE_ADAPTERS = {"cooler._reduce:CoolerCoarsener._aggregate", "cooler.api:annotate",
+                       "cooler.create._create:create_from_unordered"}
 
 
 def replay_refuted(run, name, info, args_by_label):
